@@ -26,6 +26,9 @@ type c17Op struct {
 	Code  int    `json:"code,omitempty"`  // run-toolfail: exit status of the tool; run-toolkilled: signal number
 	// Debug: the faulty run is started with -format config -d (other flags than the runs around it)
 	Debug bool `json:"debug,omitempty"`
+	// PidNS (run-overlap): each of the two runs is the first process of a pid namespace of its own, as two containers
+	// that share the home directory (both profilers have the same pid)
+	PidNS bool `json:"pidns,omitempty"`
 }
 
 type c17Case struct {
@@ -40,6 +43,9 @@ type c17Case struct {
 	// NameLen > 0: the binary's file name has that many bytes (close to NAME_MAX: names derived from it - cache file,
 	// temporary file - may not fit any more; failing is fine, trusting a partial dump is not)
 	NameLen int `json:"name_len,omitempty"`
+	// Stale: before the first step the cache already holds the complete dump of an earlier build of the binary under
+	// the same path (a normal run, then the binary changed)
+	Stale bool `json:"stale,omitempty"`
 }
 
 var c17Classes = []string{"zero", "first-line", "flush-1", "flush", "flush+1", "line", "site-before", "site-inside", "site-after", "all-but-one", "frac"}
@@ -56,7 +62,11 @@ func drawC17(t *rapid.T) c17Case {
 	for i := 0; i < n; i++ {
 		op := c17Op{Class: c17Classes[rapid.IntRange(0, len(c17Classes)-1).Draw(t, "class")], Frac: rapid.IntRange(0, 999).Draw(t, "frac"), Debug: rapid.IntRange(0, 2).Draw(t, "debug") == 0}
 		switch rapid.IntRange(0, 11).Draw(t, "op") {
-		case 10, 11:
+		case 11:
+			op.Op = "run-overlap"
+			op.Code = rapid.IntRange(0, 1).Draw(t, "overlapSecond")
+			op.PidNS = rapid.Bool().Draw(t, "overlapPidNS")
+		case 10:
 			op.Op = "run-diskfull"
 		case 0:
 			op.Op = "run-ok"
@@ -90,6 +100,7 @@ func drawC17(t *rapid.T) c17Case {
 		}
 		c.Ops = append(c.Ops, op)
 	}
+	c.Stale = rapid.IntRange(0, 3).Draw(t, "stale") == 0
 	return c
 }
 
@@ -265,7 +276,12 @@ func checkC17(raw json.RawMessage) (ev.Result, error) {
 		return nil
 	}
 	leftBehind := false
-	for i, op := range c.Ops {
+	ops := c.Ops
+	if c.Stale {
+		ops = append([]c17Op{{Op: "run-ok"}, {Op: "change-binary"}}, ops...)
+		res.Classes = append(res.Classes, "cache-holds-the-dump-of-an-earlier-build")
+	}
+	for i, op := range ops {
 		desc := fmt.Sprintf("step %d (%s %s/%d)", i, op.Op, op.Class, op.Frac)
 		var dbg []string
 		if op.Debug && (op.Op == "run-ok" || op.Op == "run-crash" || op.Op == "run-toolfail" || op.Op == "run-toolkilled" || op.Op == "run-toolmissing" || op.Op == "run-diskfull") {
@@ -330,6 +346,10 @@ func checkC17(raw json.RawMessage) (ev.Result, error) {
 				leftBehind = true
 			}
 		case "run-overlap":
+			if op.PidNS && pidNamespacesAvailable() {
+				rig.pidns = true
+				res.Classes = append(res.Classes, "overlapping-runs-in-separate-pid-namespaces")
+			}
 			n := stopAt(text, op.Class, op.Frac)
 			a, err := rig.start(fmt.Sprintf("slow:%d:250", n))
 			if err != nil {
@@ -345,6 +365,7 @@ func checkC17(raw json.RawMessage) (ev.Result, error) {
 				rb, err = rig.run(fmt.Sprintf("block:%d", m), true)
 			}
 			ra, werr := a.wait()
+			rig.pidns = false
 			if err != nil || werr != nil {
 				return res, ev.Inconclusivef("%v %v", err, werr)
 			}
@@ -434,14 +455,14 @@ func checkC17(raw json.RawMessage) (ev.Result, error) {
 	if err != nil {
 		return res, ev.Inconclusivef("%v", err)
 	}
-	if err := verify("the final normal run after "+describeOps(c.Ops), r); err != nil {
+	if err := verify("the final normal run after "+describeOps(ops), r); err != nil {
 		return res, err
 	}
 	if r.exit == 0 {
 		res.Classes = append(res.Classes, "final-run-correct-profile")
 	}
 	res.NonTrivial = leftBehind || hasFault(c.Ops)
-	res.Sub = len(c.Ops) + 2
+	res.Sub = len(ops) + 2
 	_ = os.Stat
 	_ = filepath.Join
 	return res, nil
